@@ -40,15 +40,50 @@ class Stmts:
                 new_raised = self.raised[mark:]
                 del self.raised[mark:]
                 done += new_raised
-                for o in outs:
-                    if o.kind == "fall":
-                        nxt.append(o.st)
-                    else:
-                        done.append(o)
+                falls = [o.st for o in outs if o.kind == "fall"]
+                done += [o for o in outs if o.kind != "fall"]
+                if len(falls) > 1:
+                    falls = [self.merge_states(falls)]
+                nxt += falls
             frontier = nxt
             if not frontier:
                 break
         return done + [Out("fall", s1) for s1 in frontier]
+
+    def merge_states(self, states: list[St]) -> St:
+        """Join of the fall-through states of one statement: path conditions are disjoined, values ite-merged."""
+        n = min(len(s.pc) for s in states)
+        k = 0
+        while k < n and all(s.pc[k].eq(states[0].pc[k]) for s in states[1:]):
+            k += 1
+        conds = [z3.And(*s.pc[k:]) if len(s.pc) > k else z3.BoolVal(True) for s in states]
+        m = states[0].copy()
+        m.pc = states[0].pc[:k] + (z3.Or(*conds),)
+
+        def ite(vals):
+            out = vals[-1]
+            for c, v in zip(reversed(conds[:-1]), reversed(vals[:-1])):
+                out = v if v.eq(out) else z3.If(c, v, out)
+            return out
+
+        names = set(states[0].loc)
+        for s in states[1:]:
+            names &= set(s.loc)
+        m.loc = {}
+        for nm in sorted(names):
+            svs = [s.loc[nm] for s in states]
+            ty = svs[0].ty
+            for v in svs[1:]:
+                ty = T.join(ty, v.ty)
+            m.loc[nm] = SV(ite([v.term for v in svs]), ty)
+        keys = set()
+        for s in states:
+            keys |= set(s.heap)
+        m.heap = {}
+        for key in sorted(keys):
+            m.heap[key] = ite([s.heap.get(key, base_heap(key)) for s in states])
+        m.alloc = ite([s.alloc for s in states])
+        return m
 
     def exec_stmt(self, s: ast.stmt, st: St) -> list[Out]:
         self.cur_line = getattr(s, "lineno", self.cur_line)
@@ -111,9 +146,11 @@ class Stmts:
         if isinstance(s, ast.If):
             outs = []
             for s1, c in self.ev(s.test, st):
-                t = self.truthy(c, s1)
-                outs += self.exec_block(s.body, self.narrow(s.test, s1.assume(t), True))
-                outs += self.exec_block(s.orelse, self.narrow(s.test, s1.assume(z3.Not(t)), False))
+                t = z3.simplify(self.truthy(c, s1))
+                if not z3.is_false(t):
+                    outs += self.exec_block(s.body, self.narrow(s.test, s1.assume(t), True))
+                if not z3.is_true(t):
+                    outs += self.exec_block(s.orelse, self.narrow(s.test, s1.assume(z3.Not(t)), False))
             return outs
         if isinstance(s, ast.Assert):
             outs = []
@@ -223,7 +260,7 @@ class Stmts:
                 nxt = []
                 for s2 in cur:
                     s2 = s2.copy()
-                    ev = self.read_typed(s2, self.list_get(s2, v, z3.IntVal(i)), self.elem_type(vt, i))
+                    ev = self.list_read(s2, v, z3.IntVal(i), self.elem_type(vt, i))
                     nxt += self.assign(e, ev, s2)
                 cur = nxt
             return cur
@@ -311,11 +348,18 @@ class Stmts:
         return handler in ("", "BaseException", raised) or handler in self.EXC_PARENTS.get(raised, ["Exception"])
 
     # ------------------------------------------------------------------ loops
-    def loop_spec(self) -> tuple[int, LoopSpec | None]:
-        k = self.loop_counter
-        self.loop_counter += 1
-        spec = self.cur_contract.loops.get(k) if (self.cur_contract and self.inline_depth == 0) else None
-        return k, spec
+    def loop_ordinals(self, fn: ast.FunctionDef) -> dict[int, int]:
+        loops = [n for n in ast.walk(fn) if isinstance(n, (ast.For, ast.While))]
+        loops.sort(key=lambda n: (n.lineno, n.col_offset))
+        return {id(n): i for i, n in enumerate(loops)}
+
+    def loop_spec(self, node=None) -> tuple[object, LoopSpec | None]:
+        """Loops are keyed by their ordinal in source order within the function they are written in."""
+        ids, loops, prefix = self.loop_ctx[-1]
+        k = ids.get(id(node))
+        if k is None:
+            return f"{prefix}?", None
+        return (f"{prefix}{k}" if prefix else k), loops.get(k)
 
     def heap_writes(self, stmts: list[ast.stmt]) -> tuple[set[str], bool]:
         """Heap components possibly written by `stmts` (syntactic, conservative) and whether anything may allocate."""
@@ -343,6 +387,8 @@ class Stmts:
                     keys |= {"llen", "lel", "dhas", "dval", "dsize"}
                 elif isinstance(node, ast.Call):
                     src = ast.unparse(node.func)
+                    if src.endswith(("Error", "Exception", "Warning")) or src.startswith("warnings."):
+                        continue
                     if src.startswith(("logger.", "logging.")) or src in ("isinstance", "len", "int", "str", "max", "min", "f", "_", "enumerate", "zip", "range"):
                         continue
                     if isinstance(node.func, ast.Attribute) and node.func.attr in ("append", "insert", "pop", "copy"):
@@ -468,7 +514,7 @@ class Stmts:
             self.emit(f"loop{k}.{kind}.auto[{i}]", f"loop invariant ({'holds on entry' if kind == 'entry' else 'is preserved'}): {text}", st, fn(st), "inv-" + kind, line)
 
     def exec_while(self, s: ast.While, st: St) -> list[Out]:
-        k, lspec = self.loop_spec()
+        k, lspec = self.loop_spec(s)
         if lspec is None:
             raise Unsupported(f"while loop #{k} at line {s.lineno} has no invariant in the sidecar")
         if s.orelse:
@@ -531,7 +577,7 @@ class Stmts:
 
     # for loops: `for t in <iter>` is `i = 0; while i < n: t = elem(i); body; i += 1`
     def exec_for(self, s: ast.For, st: St) -> list[Out]:
-        k, lspec = self.loop_spec()
+        k, lspec = self.loop_spec(s)
         if s.orelse:
             raise Unsupported("for/else")
         if lspec is None:
@@ -593,7 +639,7 @@ class Stmts:
                     key = self.read_typed(ss, z3.Select(kseq, j), kt)
                     if mode2 == "keys":
                         return key
-                    val = self.read_typed(ss, self.dict_val(ss, c, key.term), vt)
+                    val = self.dict_read(ss, c, key.term, vt)
                     if mode2 == "values":
                         return val
                     return (key, val)
@@ -610,7 +656,7 @@ class Stmts:
                 et = self.elem_type(ct)
 
                 def elem(ss, j, c=c, et=et):
-                    return self.read_typed(ss, self.list_get(ss, c, j), et)
+                    return self.list_read(ss, c, j, et)
 
                 ghosts = {"it_elem": lambda sp, jv, c=c, et=et: SV(self.list_get(sp.st, c, as_i(jv.term)), et)}
                 res.append((s1, {"n": None, "elem": elem, "live": c, "ghosts": ghosts}))
@@ -680,7 +726,10 @@ class Stmts:
         if not hasattr(self, "_auto_inv"):
             self._auto_inv = {}
         self._auto_inv[k] = []
-        self._auto_inv[k] = self.houdini(self.frame_candidates(st, keys), st, make_head, run_body) if keys else []
+        cands = self.frame_candidates(st, keys) if keys else []
+        if len_may_change:
+            cands.append(("[auto] loop index stays within the iterated list", lambda ss: as_i(ss.ghosts["it_i"].term) <= self.list_len(ss, live)))
+        self._auto_inv[k] = self.houdini(cands, st, make_head, run_body) if cands else []
         self.check_invariants(st, lspec, "entry", k, s.lineno)
         h = make_head(self._auto_inv[k])
         if lspec.invariants:
